@@ -132,7 +132,32 @@ TYPE_ITEMS = [
 ]
 
 
+def rewrite_e3(body: str, uname: str, log: list) -> str:
+    """rule E3: `JsonPathError::Variant(format!(..))` -> `vf_error()` (the message text is dropped)"""
+    n = 0
+    while True:
+        toks = tokenize(body)
+        hit = None
+        for i, t in enumerate(toks):
+            if t.kind == "ident" and t.text == "format" and i + 2 < len(toks) and toks[i + 1].text == "!" and toks[i + 2].text == "(":
+                if i >= 5 and toks[i - 1].text == "(" and toks[i - 2].kind == "ident" and toks[i - 3].text == ":" and toks[i - 4].text == ":" \
+                        and toks[i - 5].text == "JsonPathError":
+                    e = close_of(toks, i + 2)
+                    if e + 1 < len(toks) and toks[e + 1].text == ")":
+                        hit = (toks[i - 5].start, toks[e + 1].end)
+                        break
+        if not hit:
+            break
+        body = body[:hit[0]] + "vf_error()" + body[hit[1]:]
+        n += 1
+    if n:
+        log.append(f"E3 {uname}: JsonPathError::_(format!(..)) -> vf_error() x{n}")
+    return body
+
+
 LINE_ITEMS = [
+    ("src/parser.rs", r"const MAX_VAL: i64 = 9007199254740991;"),
+    ("src/parser.rs", r"const MIN_VAL: i64 = -9007199254740991;"),
     ("src/query.rs", r"pub struct QueryRef<'a, T: Queryable>\(&'a T, QueryPath\);"),
     ("src/query.rs", r"pub type Queried<T> = Result<T, JsonPathError>;"),
     ("src/parser.rs", r"pub type Parsed<T> = Result<T, JsonPathError>;"),
@@ -298,7 +323,7 @@ def _annotate_loops(body: str, unit: Unit, log: list) -> str:
 def render_real(unit: Unit, repo: Repo, log: list) -> str:
     fn = _fn_of(unit, repo)
     params, lets = _params_e1(fn, log, unit.name)
-    body = fn.body
+    body = rewrite_e3(fn.body, unit.name, log)
     for entry in unit.shapes:
         rule, count = entry[0], entry[1]
         tpl, rep = SHAPES[rule]
